@@ -1213,6 +1213,17 @@ impl HeaderProvider for StorageWithChainData {
         self.storage
             .get_header(hash)
             .or_else(|| self.peers.find_header_in_proved_state(hash))
+            .or_else(|| {
+                // the tip itself is neither a matched / fetched block nor one of the last n
+                // headers of a prove state (they end at its parent)
+                let (_, tip_header) = self.storage.get_last_state();
+                let tip_header = tip_header.into_view();
+                if &tip_header.hash() == hash {
+                    Some(tip_header)
+                } else {
+                    None
+                }
+            })
     }
 }
 
